@@ -22,7 +22,7 @@ import (
 // mode the property lists; after each batch the harness waits for the server
 // side to settle (bounded) and records the counts again.
 
-var churnModes = []string{"fin-boundary", "fin-mid", "rst", "quit", "malformed", "writefail", "tls-nocert", "tls-wrongname", "tls-ok-fin", "tls-stall-close", "idle-fin"}
+var churnModes = []string{"fin-boundary", "fin-mid", "rst", "quit", "malformed", "writefail", "tls-nocert", "tls-wrongname", "tls-ok-fin", "tls-ok-rst", "tls-stall-close", "idle-fin"}
 
 func countFDs() int {
 	ents, err := os.ReadDir("/proc/self/fd")
@@ -51,7 +51,7 @@ func (cr *churnRun) one(mode string, rng *rand.Rand) (closedByServer bool, mustC
 		}
 	}
 	switch mode {
-	case "tls-nocert", "tls-wrongname", "tls-ok-fin", "tls-stall-close":
+	case "tls-nocert", "tls-wrongname", "tls-ok-fin", "tls-ok-rst", "tls-stall-close":
 		raw, err := net.DialTimeout("tcp", fmt.Sprintf("127.0.0.1:%d", cr.tlsp), time.Second)
 		if err != nil {
 			return false, true
@@ -64,16 +64,19 @@ func (cr *churnRun) one(mode string, rng *rand.Rand) (closedByServer bool, mustC
 			close(hc.hold)
 			return true, false
 		}
-		cred := map[string]string{"tls-nocert": "nocert", "tls-wrongname": "wrongname", "tls-ok-fin": "ok"}[mode]
+		cred := map[string]string{"tls-nocert": "nocert", "tls-wrongname": "wrongname", "tls-ok-fin": "ok", "tls-ok-rst": "ok"}[mode]
 		tc := tls.Client(raw, &tls.Config{RootCAs: cr.p.rootPool, ServerName: "localhost", Certificates: cr.p.clients[cred], MinVersion: tls.VersionTLS12})
 		raw.SetDeadline(time.Now().Add(2 * time.Second))
 		if err := tc.Handshake(); err != nil {
 			// an alert is not a hang-up: the server has to close the TCP connection itself
-			return readEOF(raw), mode != "tls-ok-fin"
+			return readEOF(raw), mode != "tls-ok-fin" && mode != "tls-ok-rst"
 		}
-		if mode == "tls-ok-fin" {
+		if mode == "tls-ok-fin" || mode == "tls-ok-rst" {
 			tc.Write(request("PING"))
 			bufio.NewReader(tc).ReadString('\n')
+			if mode == "tls-ok-rst" { // an established TLS connection that is reset (no close_notify, the server's own close_notify cannot be written)
+				raw.(*net.TCPConn).SetLinger(0)
+			}
 			return true, false
 		}
 		tc.Write(request("PING"))
